@@ -224,6 +224,9 @@ func pkgShort(p *types.Package) string {
 	if path == pkgPrefix+"http" {
 		return "httphelper"
 	}
+	if path == "math/rand" || path == "math/rand/v2" {
+		return "mathrand"
+	}
 	if i := strings.LastIndex(path, "/"); i >= 0 {
 		// versioned import paths: github.com/go-jose/go-jose/v4 -> jose
 		last := path[i+1:]
@@ -592,10 +595,16 @@ func patTerm(e ast.Expr) *Term {
 	case *ast.TypeAssertExpr:
 		return mk("assert", types.ExprString(x.Type), patTerm(x.X))
 	case *ast.CompositeLit:
-		t := mk("lit", types.ExprString(x.Type))
-		for _, el := range x.Elts {
+		ts := ""
+		if x.Type != nil {
+			ts = types.ExprString(x.Type)
+		}
+		t := mk("lit", ts)
+		for i, el := range x.Elts {
 			if kv, ok := el.(*ast.KeyValueExpr); ok {
 				t.A = append(t.A, mk("kv", types.ExprString(kv.Key), patTerm(kv.Value)))
+			} else {
+				t.A = append(t.A, mk("kv", fmt.Sprint(i), patTerm(el)))
 			}
 		}
 		return t
@@ -648,7 +657,7 @@ func (b Bind) clone() Bind {
 }
 
 func nameMatches(pat, have string) bool {
-	if pat == have {
+	if pat == have || pat == "" {
 		return true
 	}
 	if strings.HasSuffix(have, "."+pat) {
@@ -822,4 +831,8 @@ func sortedKeys(m map[string]*Term) []string {
 	}
 	sort.Strings(ks)
 	return ks
+}
+
+func constInt(o *types.Const) (int64, bool) {
+	return constant.Int64Val(constant.ToInt(o.Val()))
 }
